@@ -135,6 +135,26 @@ Theorem C16_errors : forall pf w args a, In a args ->
 Proof. exact refusals. Qed.
 Print Assumptions C16_errors.
 
+(** The constructor fold's error is STICKY: an invalid argument at any position — whatever precedes
+    and whatever follows it, fast-path or slow-path types — leaves the item errored; it is then
+    neither Equal to the item of the remaining arguments nor accepted by the message gate. *)
+Theorem C16_errors_any_position : forall pf w pre a post,
+  (refused_int a -> error (new_int w (pre ++ a :: post)) <> None) /\
+  (refused_uint a -> error (new_uint w (pre ++ a :: post)) <> None) /\
+  (refused_float pf a -> error (new_float pf w (pre ++ a :: post)) <> None) /\
+  (refused_bin a -> error (new_binary (pre ++ a :: post)) <> None) /\
+  (refused_bool a -> error (new_boolean (pre ++ a :: post)) <> None).
+Proof. exact refusals_any_position. Qed.
+Print Assumptions C16_errors_any_position.
+
+Theorem C16_forgotten_argument_impossible : forall w pre a post stream function wb session sysbytes,
+  refused_int a ->
+  let it := new_int w (pre ++ a :: post) in
+  equal it (new_int w (pre ++ post)) = false /\ equal (new_int w (pre ++ post)) it = false /\
+  exists e, new_data_message stream function wb session sysbytes (Some it) = inl e.
+Proof. exact forgotten_argument_impossible. Qed.
+Print Assumptions C16_forgotten_argument_impossible.
+
 Theorem C16_errors_byte_size : forall pf w args,
   (~ valid_w w -> error (new_int w args) <> None /\ error (new_uint w args) <> None) /\
   (~ (w = 4 \/ w = 8) -> error (new_float pf w args) <> None).
@@ -273,6 +293,14 @@ Proof.
   - left. reflexivity.
   - right. reflexivity.
 Qed.
+
+(* "12x" first, a slow-path argument ("34", int8) behind it: still errored *)
+Example C16_errors_any_position_nonvacuous :
+  refused_int (AStr [49; 50; 120]) /\
+  error (new_int 2 [AStr [49; 50; 120]; AStr [51; 52]]) = Some ESyntax /\
+  error (new_int 2 [AInt TInt 1; ANil; AInts TInt32 [1; 2]; AInt TInt8 5]) = Some EType /\
+  error (new_int 2 [AStr [51; 52]; AInt TInt8 5]) = None.
+Proof. repeat split; reflexivity. Qed.
 
 Example C16_clean_flag_nonvacuous :
   let bad := new_int 1 [ANil] in
